@@ -138,7 +138,7 @@ def manifest_op(g, name="build.ninja", text=None, extra=(), style=None, builddir
     return {"op": "manifest", "name": name, "text": text, "g": g, "extra": [list(e) for e in extra]}
 
 def invoke(targets=(), j=2, k=0, adopt=False, file="build.ninja", outcomes=None, policy=None,
-           crash=None, kill=None, extra_args=()):
+           crash=None, kill=None, extra_args=(), explain=False):
     argv = []
     if file != "build.ninja":
         argv += ["-f", file]
@@ -147,9 +147,12 @@ def invoke(targets=(), j=2, k=0, adopt=False, file="build.ninja", outcomes=None,
         argv += ["-k", str(k)]
     if adopt:
         argv += ["-d", "ninja_compat", "-t", "restat"]
+    if explain:
+        argv += ["-d", "explain"]
     argv += list(extra_args)
     argv += list(targets)
     op = {"op": "invoke", "argv": argv, "targets": list(targets), "j": j, "k": k, "adopt": adopt,
+          "explain": bool(explain),
           "file": file, "outcomes": {str(a): b for a, b in (outcomes or {}).items()},
           "policy": policy or {"kind": "first"}}
     if crash:
